@@ -322,6 +322,45 @@ def splice_self_calls(ci, fnode, depth=0, module=None, accept=None):
             return None
         return m
 
+    def gen_helper_of(call):
+        """private generator method with exactly one `yield E` statement (and no value-returning return): a `for x in self._g(): BODY`
+        over it is the generator's body with the yield replaced by `x = E; BODY`"""
+        if not (isinstance(call, ast.Call) and ci is not None and isinstance(call.func, ast.Attribute) and isinstance(call.func.value, ast.Name) and
+                call.func.value.id == "self" and call.func.attr.startswith("_") and not call.func.attr.startswith("__")):
+            return None
+        m = ci.find_method(call.func.attr)
+        if m is None or m.node is fnode or m.node.args.vararg or m.node.args.kwarg or any(isinstance(a, ast.Starred) for a in call.args):
+            return None
+        ys = [y for y in ast.walk(m.node) if isinstance(y, (ast.Yield, ast.YieldFrom))]
+        if len(ys) != 1 or not isinstance(ys[0], ast.Yield) or ys[0].value is None:
+            return None
+        if any(isinstance(r, ast.Return) and r.value is not None for r in ast.walk(m.node)):
+            return None
+        if not any(isinstance(e_, ast.Expr) and e_.value is ys[0] for e_ in ast.walk(m.node)):
+            return None
+        if accept is not None and not accept(m.node):
+            return None
+        return m
+
+    def fuse(m, loop):
+        body = body_of(m)
+        target, consumer = loop.target, loop.body
+
+        def rec(stmts):
+            out_ = []
+            for st in stmts:
+                if isinstance(st, ast.Expr) and isinstance(st.value, ast.Yield):
+                    out_.append(ast.Assign(targets=[_copy.deepcopy(target)], value=st.value.value))
+                    out_.extend(consumer)
+                    continue
+                for f_ in ("body", "orelse", "finalbody"):
+                    b_ = getattr(st, f_, None)
+                    if isinstance(b_, list) and b_ and isinstance(b_[0], ast.stmt):
+                        setattr(st, f_, rec(b_))
+                out_.append(st)
+            return out_
+        return rec(body)
+
     def bind(m, call):
         plain = getattr(m, "plain", False) or any(isinstance(d_, ast.Name) and d_.id == "staticmethod" for d_ in m.node.decorator_list)
         params = [a.arg for a in m.node.args.posonlyargs + m.node.args.args][0 if plain else 1:]
@@ -384,6 +423,26 @@ def splice_self_calls(ci, fnode, depth=0, module=None, accept=None):
                             tmp = splice_self_calls(ci, tmp, depth + 1, module, accept)
                             res.extend(splice(pre) + tmp.body + [ast.Return(value=body[-1].value)])
                             done = True
+            elif isinstance(s, ast.For) and not s.orelse and isinstance(s.target, (ast.Name, ast.Tuple)) and \
+                    not any(isinstance(x_, (ast.Break, ast.Continue, ast.Yield, ast.YieldFrom)) and False for x_ in ()):
+                m = gen_helper_of(s.iter)
+                # a break / continue of the consumer would act on the generator's own loop after fusion: not fused then
+                own_jump = False
+                stack_ = list(s.body)
+                while stack_:
+                    x_ = stack_.pop()
+                    if isinstance(x_, (ast.Break, ast.Continue)):
+                        own_jump = True
+                    if isinstance(x_, (ast.For, ast.While, ast.FunctionDef, ast.Lambda)):
+                        continue
+                    stack_.extend(ast.iter_child_nodes(x_))
+                if m is not None and not own_jump:
+                    pre = bind(m, s.iter)
+                    if pre is not None:
+                        tmp = ast.FunctionDef(name="_", args=m.node.args, body=fuse(m, s) or [ast.Pass()], decorator_list=[], returns=None, type_comment=None)
+                        tmp = splice_self_calls(ci, tmp, depth + 1, module, accept)
+                        res.extend(splice(pre) + tmp.body)
+                        done = True
             if done:
                 continue
             for f in ("body", "orelse", "finalbody"):
